@@ -9,6 +9,7 @@ import ast
 from ..core import AnalysisError, norm
 from .. import boolx as B
 from .. import q
+from .. import pathx as P
 from ..rules_stream import (STREAM, PACKET, fx_of, s2_sampling, s3_counter, depends, s5_omit, s5_hand, s6_fork,
                             fail_closed, short, under)
 
@@ -363,7 +364,22 @@ def _s10(ctx):
     ok = len(ca) == 1 and "self.source.payload.flatten()" in ca[0].t and "self.sink.payload.flatten()" in ca[0].v and ca[0].v.startswith("Cat(")
     ctx.ob("S10", STREAM, "Cast", "all source payload bits <- all sink payload bits", ok, "" if ok else f"{[(a.t[:40], a.v[:40]) for a in ca]}")
     init = m.method("Cast", "__init__")
-    ok = any(isinstance(n, ast.If) and "sum(" in norm(n.test) and "!=" in norm(n.test) and any(isinstance(x, ast.Raise) for x in n.body) for n in ast.walk(init))
+    def _side(e):
+        import re as _re
+        t = norm(e)
+        return _re.sub(r"\b(sigs_from|sigs_to)\b", "S", _re.sub(r"\bself\.(sink|source)\b", "E", _re.sub(r"\breverse_(from|to)\b", "R", t))), \
+            bool(_re.search(r"\b(sigs_from|reverse_from)\b|\bself\.sink\b", t)), bool(_re.search(r"\b(sigs_to|reverse_to)\b|\bself\.source\b", t))
+    ok = False
+    for p in P.feasible_paths(init):
+        if p.end != "raise":
+            continue
+        for t, pol in p.tests_before(len(p.ev)):
+            # raise reached with "measure(from side) == measure(to side)" false, the same measure on both sides, counting bits (len)
+            if isinstance(t, ast.Compare) and len(t.ops) == 1 and isinstance(t.ops[0], ast.Eq) and not pol:
+                (a, af, at), (b, bf, bt) = _side(t.left), _side(t.comparators[0])
+                uses_len = "len(" in a or any(isinstance(f, ast.FunctionDef) and f.name in a and "len(" in norm(f) for f in ast.walk(init))
+                if a == b and ((af and bt and not at and not bf) or (at and bf and not af and not bt)) and uses_len:
+                    ok = True
     ctx.ob("S10", STREAM, "Cast", "width mismatch raises", ok, "" if ok else "the bit-count check vanished", init)
     # ---- BufferizeEndpoints
     fx = FX(ctx, STREAM, cls="BufferizeEndpoints", entries=("transform_instance",))
